@@ -3,6 +3,8 @@ package main
 import (
 	"bufio"
 	"go/types"
+
+	"golang.org/x/tools/go/ssa"
 	"fmt"
 	"os"
 	"strconv"
@@ -65,6 +67,7 @@ type ContractDB struct {
 	preds  map[string]*PredDef
 	files  []string
 	axioms []*Clause // definitional axioms of spec functions (listed in evidence)
+	recvOnly    []string        // receiver-type prefixes "(*pkg.T)": methods modify only the receiver's own struct fields
 	pureFns     map[string]bool // dependency functions (by ssa String()) that neither modify go-restli objects nor depend on anything but their arguments
 	closedTerms map[string]bool // "pkg.Var": evaluated by running the real initialiser
 	effectFns  map[string]bool // dependency functions with externally visible effects: every call needs a call-site assert
@@ -195,6 +198,8 @@ func (db *ContractDB) load(path string) error {
 				}
 			}
 			db.specFn[sf.Name] = sf
+		case "recvonly":
+			db.recvOnly = append(db.recvOnly, strings.Fields(rest)...)
 		case "purefn":
 			for _, n := range strings.Fields(rest) {
 				db.pureFns[n] = true
@@ -380,6 +385,24 @@ func (db *ContractDB) load(path string) error {
 	return nil
 }
 
+// recvOnlyType: fn is a method of a dependency type whose methods are declared to modify only the receiver.
+func (db *ContractDB) recvOnlyType(fn *ssa.Function) types.Type {
+	if fn.Signature.Recv() == nil {
+		return nil
+	}
+	s := fn.String()
+	for _, p := range db.recvOnly {
+		if strings.HasPrefix(s, p+".") {
+			t := fn.Signature.Recv().Type()
+			if pt, ok := t.Underlying().(*types.Pointer); ok {
+				return pt.Elem()
+			}
+			return t
+		}
+	}
+	return nil
+}
+
 // ifacePreservesFor: the preserves declaration of an interface method ("pkg.Iface.Method" or "pkg.Iface.*").
 func (db *ContractDB) ifacePreservesFor(m *types.Func) []string {
 	key := ifaceMethodKey(m)
@@ -390,6 +413,18 @@ func (db *ContractDB) ifacePreservesFor(m *types.Func) []string {
 		return db.ifacePreserves[key[:i]+".*"]
 	}
 	return nil
+}
+
+// isPureIface: the interface method is declared pure ("pkg.Iface.Method" or "pkg.Iface.*").
+func (db *ContractDB) isPureIface(m *types.Func) bool {
+	key := ifaceMethodKey(m)
+	if db.pureIface[key] {
+		return true
+	}
+	if i := strings.LastIndex(key, "."); i > 0 {
+		return db.pureIface[key[:i]+".*"]
+	}
+	return false
 }
 
 // preservePrefixes: "pkg.T" -> fields of struct T; "cells:T" -> cells of type T; "map:K=>V" -> a map type's arrays.
